@@ -86,10 +86,12 @@ def main():
     dst = os.path.join(VERIF, "seeded", name)
     os.makedirs(dst, exist_ok=True)
     for f in ("patch.diff", "demo_test.go", "demo.sh"):
-        if os.path.exists(os.path.join(seed, f)):
+        if os.path.exists(os.path.join(seed, f)) and os.path.abspath(seed) != os.path.abspath(dst):
             shutil.copy(os.path.join(seed, f), os.path.join(dst, f))
     meta["confirmed"] = log
     meta["what_i_ran"] = "scratch copy of /repo; demo on unchanged tree (pass), git apply patch.diff, go build . ./cmd/gmars, go test -vet=off -count=1 . (pass), demo (fail); then VERIF_REPO=<scratch> ./check <id> --tier quick"
+    if "caught_by_target_check" in meta and not meta["caught_by_target_check"] and caught[prop]["rc"] == 1:
+        meta["initially_missed_then_caught_after_strengthening"] = True
     meta["check_results"] = caught
     meta["caught_by_target_check"] = caught[prop]["rc"] == 1
     json.dump(meta, open(os.path.join(dst, "meta.json"), "w"), indent=1)
